@@ -11,8 +11,11 @@ every record.  The tie to /repo, evaluated on every run:
   T3  every ISLaSolver.solve() output for the shipped CSV formalization satisfies the premises of
       the theorem (wf, closed, colno_satb) and the conclusion (equal column counts by both readers).
 SEARCH part (not proof): ISLaSolver outputs for the shipped XML, reST and simple-TAR
-formalizations validated by independent checkers (xml.etree; docutils; a byte-level TAR header
-reader)."""
+formalizations validated by independent checkers (xml.etree + own tag/namespace stack; docutils; a
+byte-level TAR header reader).  Outputs are generated from scratch and from scaffolds (initial_tree):
+XML trees with prefixed elements and open attribute slots at several depths, TAR archives with >= 2
+entries (two of them textually identical with a stale checksum), each TAR scaffold solved twice in one
+process; reST also with activate_unsat_support=True and 2/2 free/SMT instantiations."""
 import csv as pycsv
 import io
 import json
@@ -342,8 +345,13 @@ def run(run):
         "ISLaSolver(CSV_GRAMMAR, CSV_COLNO_PROPERTY).solve() under several seeds / cost vectors / "
         "instantiation bounds; each case = (tree, str(tree), evaluate verdict, csv.reader rows) compared "
         "inside Coq with wf_treeb/closedb/yield/colno_satb/csv_rows.  non-trivial = tree has >= 2 "
-        "<csv-record> nodes (distinct by text).  XML / reST / simple TAR (search only): solver outputs "
-        "checked by xml.etree + tag stack, docutils system messages + heading count, byte-level TAR reader.")
+        "<csv-record> nodes (distinct by text).  XML / reST / simple TAR (search only): solver outputs, from "
+        "scratch and from scaffolds passed as initial_tree (XML: nested prefixed elements with open attribute "
+        "slots at several depths; TAR: archives with >= 2 entries incl. two textually identical entries with a "
+        "stale checksum, every scaffold solved twice in one process; reST additionally with "
+        "activate_unsat_support and 2/2 instantiations), checked by xml.etree + an independent tag / "
+        "attribute / namespace-binding stack, docutils system messages + heading count, byte-level TAR reader "
+        "(every header's checksum).")
     proof_ok = run.proof_stage()
     t_start = time.time()
     hist = {"fuzzer": 0, "parser": 0, "solver": 0, "verdict_true": 0, "verdict_false": 0,
@@ -516,8 +524,8 @@ def run(run):
                           '<a:b q="0"><a:c q="0"/><d q="0">x</d></a:b>']
         search("xml", xml_g, xml_f, lambda s, t: check_xml(s),
                [dict(scaffold=xml_scaffold(xml_g, txt), n=6 if thorough else 3,
-                     budget=20 if thorough else 5, max_number_free_instantiations=1)
-                for txt in xml_texts])
+                     budget=20 if thorough else (6 if k == 0 else 8), max_number_free_instantiations=1)
+                for k, txt in enumerate(xml_texts)])   # the first scaffold has no solution on a correct tree
 
         rest_f = (rest.LENGTH_UNDERLINE & rest.DEF_LINK_TARGETS & rest.NO_LINK_TARGET_REDEF
                   & rest.LIST_NUMBERING_CONSECUTIVE)
